@@ -54,9 +54,12 @@ pub enum Src {
     PConRangePre,
     PConIterPre,
     PConIterParPre,
+    /// wrapped Vec / by-value iterator of 64 KiB items (tok::Big)
+    SBigVec,
+    SBigIter,
 }
 
-pub const ALL_SRC: [(Src, &str); 38] = [
+pub const ALL_SRC: [(Src, &str); 40] = [
     (Src::SVec, "svec"),
     (Src::SSlice, "sslice"),
     (Src::SIter, "siter"),
@@ -95,6 +98,8 @@ pub const ALL_SRC: [(Src, &str); 38] = [
     (Src::PConRangePre, "pconrangepre"),
     (Src::PConIterPre, "pconiterpre"),
     (Src::PConIterParPre, "pconiterparpre"),
+    (Src::SBigVec, "sbigvec"),
+    (Src::SBigIter, "sbigiter"),
 ];
 
 #[derive(Clone, Copy, Debug, PartialEq, Eq)]
@@ -128,7 +133,7 @@ impl Src {
     }
     pub fn item_kind(self) -> ItemKind {
         match self {
-            Src::SVec | Src::SIter | Src::PVec | Src::PIter | Src::PDeque | Src::PList | Src::PBTree | Src::PHeap | Src::PHash => ItemKind::Owned,
+            Src::SVec | Src::SIter | Src::SBigVec | Src::SBigIter | Src::PVec | Src::PIter | Src::PDeque | Src::PList | Src::PBTree | Src::PHeap | Src::PHash => ItemKind::Owned,
             Src::PClonedAd | Src::PClonedIt | Src::PConVec | Src::PConVecPre | Src::PConIterPre | Src::PConIterParPre | Src::PConIter | Src::PConIterPar | Src::PBTreeMap | Src::PHashMap => ItemKind::Owned,
             Src::SRange | Src::PRange | Src::PCopiedAd | Src::PConRange | Src::PConRangePre => ItemKind::Usize,
             _ => ItemKind::Ref,
@@ -136,12 +141,12 @@ impl Src {
     }
     /// source operations are scheduling points (SchedIter wrapper)
     pub fn wrapped(self) -> bool {
-        matches!(self, Src::SVec | Src::SSlice | Src::SIter | Src::SRange)
+        matches!(self, Src::SVec | Src::SSlice | Src::SIter | Src::SRange | Src::SBigVec | Src::SBigIter)
     }
     /// the source's length is known up front (given `known` for iterator sources)
     pub fn known_len(self, known: bool) -> bool {
         match self {
-            Src::SIter | Src::PIter | Src::PConIter | Src::PConIterPar | Src::PConIterPre | Src::PConIterParPre => known,
+            Src::SIter | Src::SBigIter | Src::PIter | Src::PConIter | Src::PConIterPar | Src::PConIterPre | Src::PConIterParPre => known,
             Src::PHash | Src::PHashRef | Src::PBTree | Src::PBTreeRef | Src::PList | Src::PListRef | Src::PDeque | Src::PDequeRef | Src::PHeap | Src::PHeapRef => true,
             _ => true,
         }
@@ -187,6 +192,9 @@ pub struct Case {
     pub quiet: bool,
     /// how flat_map expansions are produced (closures::EXP_MODE): 0 container, 1 lazy, 2 lazy and endless
     pub exp_mode: u8,
+    /// the computation is built (and run) inside a closure of another parallel computation, i.e. on one of
+    /// that computation's worker threads
+    pub nested: bool,
 }
 
 impl Case {
@@ -216,6 +224,7 @@ impl Case {
             fault_payload: 0,
             quiet: false,
             exp_mode: 0,
+            nested: false,
         }
     }
 
@@ -256,7 +265,7 @@ impl Case {
         };
         let j = |v: Vec<String>| v.join(",");
         format!(
-            "src={};in={};k={};e={};ch={};t={};rk={};pre={};sp={};nt={};cs={};cf={};fm={};ex={};pm={:x};fault={};cp={};spt={};pp={},{};cpl={};fp={};q={};xm={}",
+            "src={};in={};k={};e={};ch={};t={};rk={};pre={};sp={};nt={};cs={};cf={};fm={};ex={};pm={:x};fault={};cp={};spt={};pp={},{};cpl={};fp={};q={};xm={};ne={}",
             self.src.name(),
             if inp.is_empty() { "-".to_string() } else { inp },
             self.known as u8,
@@ -283,7 +292,8 @@ impl Case {
             self.cp_limit,
             self.fault_payload,
             self.quiet as u8,
-            self.exp_mode
+            self.exp_mode,
+            self.nested as u8
         )
     }
 
@@ -357,6 +367,7 @@ impl Case {
                 "fp" => c.fault_payload = v.parse().unwrap(),
                 "q" => c.quiet = v == "1",
                 "xm" => c.exp_mode = v.parse().unwrap(),
+                "ne" => c.nested = v == "1",
                 _ => panic!("MACHINERY: unknown case field {}", k),
             }
         }
@@ -387,6 +398,9 @@ pub struct Obs {
     /// children handed out by flat_map expansions / an expansion was advanced beyond closures::RUNAWAY_LIMIT
     pub exp_produced: u64,
     pub exp_runaway: bool,
+    /// nested cases: threads the outer computation had spawned when the body started, and the thread the body ran on
+    pub base_spawns: u32,
+    pub caller: u16,
 }
 
 pub fn elems_of(input: &[u8]) -> Vec<(u64, u8)> {
@@ -422,6 +436,35 @@ pub fn install_params(case: &Case) {
     source::WIDE.store(case.wide(), SeqCst);
 }
 
+/// (threads spawned before the nested body started) << 16 | logical thread that runs the body
+static NESTED_BASE: std::sync::atomic::AtomicU64 = std::sync::atomic::AtomicU64::new(0);
+
+struct AssertSend<T>(T);
+unsafe impl<T> Send for AssertSend<T> {}
+unsafe impl<T> Sync for AssertSend<T> {}
+
+/// Runs `f` inside a closure of an outer parallel computation (two elements, two threads, chunk size 1; the
+/// first element's closure calls `f`), so that whatever `f` builds is built on a worker thread.
+fn nested<R>(f: impl FnOnce() -> R) -> R {
+    use orx_parallel::{IntoPar, Par};
+    let slot = AssertSend(std::sync::Mutex::new(Some(f)));
+    let out: AssertSend<std::sync::Mutex<Option<R>>> = AssertSend(std::sync::Mutex::new(None));
+    let (slot, out_ref) = (&slot, &out);
+    vec![0usize, 1].into_par().num_threads(2).chunk_size(1).for_each(move |i| {
+        if i == 0 {
+            if sched::current_thread() == Some(0) {
+                panic!("MACHINERY: the outer computation of a nested case ran its closure on the calling thread");
+            }
+            NESTED_BASE.store(((glue::take_spawn_count() as u64) << 16) | sched::current_thread().unwrap_or(0) as u64, SeqCst);
+            let f = slot.0.lock().unwrap_or_else(|e| e.into_inner()).take().unwrap();
+            let r = f();
+            *out_ref.0.lock().unwrap_or_else(|e| e.into_inner()) = Some(r);
+        }
+    });
+    let r = out.0.lock().unwrap_or_else(|e| e.into_inner()).take();
+    r.expect("MACHINERY: the nested body did not run")
+}
+
 /// One execution of `case` on the real code with the forced choice prefix.
 pub fn run_case(case: &Case, cfg: &Config, prefix: &[u8], body: BodyFn) -> Obs {
     source::reset();
@@ -432,7 +475,7 @@ pub fn run_case(case: &Case, cfg: &Config, prefix: &[u8], body: BodyFn) -> Obs {
     let st = Settings { nt: case.nt, cs: case.cs, cs_first: case.cs_first, probes: Default::default() };
     let mut eff = Vec::new();
     let (result, rec) = sched::run_one(cfg, prefix, || {
-        catch_unwind(AssertUnwindSafe(|| body(case, &st, &mut eff))).map_err(|e| {
+        catch_unwind(AssertUnwindSafe(|| if case.nested { nested(|| body(case, &st, &mut eff)) } else { body(case, &st, &mut eff) })).map_err(|e| {
             if let Some(s) = e.downcast_ref::<&str>() {
                 s.to_string()
             } else if let Some(s) = e.downcast_ref::<String>() {
@@ -465,5 +508,7 @@ pub fn run_case(case: &Case, cfg: &Config, prefix: &[u8], body: BodyFn) -> Obs {
         eff_input: eff,
         exp_produced: cl::EXP_PRODUCED.load(SeqCst),
         exp_runaway: cl::EXP_RUNAWAY.load(SeqCst),
+        base_spawns: if case.nested { (NESTED_BASE.load(SeqCst) >> 16) as u32 } else { 0 },
+        caller: if case.nested { (NESTED_BASE.load(SeqCst) & 0xFFFF) as u16 } else { 0 },
     }
 }
